@@ -446,6 +446,26 @@ Definition sp_swap (c : cfg) (st : astate) (nx : N) (v1 : nat) (i : N) (v2 : nat
        | _, _ => None
        end.
 
+(** push / insert of a LAZY CLONE of element [sidx] of another vector [src] (any nesting depth of
+    lazy_clone()): the clone is a new value made by exactly one Clone call at the moment of consumption and it
+    is what the destination receives; the source is untouched; a refused offer (index, full fixed capacity)
+    clones nothing *)
+Definition sp_offer_lazy (c : cfg) (st : astate) (nx : N) (v : nat) (idx : option N) (src : nat) (sidx : N)
+  : option sres :=
+  if Nat.eqb src v then None
+  else match get_a v st, get_a src st with
+       | Some a, Some b =>
+           if sidx <? N.of_nat (length (a_xs b)) then
+             let t0 := nth (N.to_nat sidx) (a_xs b) 0 in
+             let n := tok c nx in
+             match put_value c a idx n with
+             | inl xs' => Some (ok_res [] [EClone t0 n] (set_a v (Some (with_xs a xs')) st) (nx + 1))
+             | inr p => Some (panic_res p [] st nx)
+             end
+           else Some (panic_res PIndex [] st nx)
+       | _, _ => None
+       end.
+
 (** the fragment: by-value or boxed replacement values, all of the right type, honest size hint *)
 Lemma sp_splice_inv c st nx v sb eb pat f rk n wrong_at claimed r :
   sp_splice c st nx v sb eb pat f rk n wrong_at claimed = Some r ->
@@ -475,6 +495,7 @@ Definition spec_step (c : cfg) (st : astate) (nx : N) (o : op) : option sres :=
       if fresh_src s then sp_offer c st nx v None
       else match a, s with
            | Erased, SWrong k | Erased, SBoxWrong k => sp_offer_wrong c st nx v k
+           | _, SLazy _ src sidx => sp_offer_lazy c st nx v None src sidx
            | _, _ => None
            end
   | OInsert a v idx s =>
@@ -483,6 +504,7 @@ Definition spec_step (c : cfg) (st : astate) (nx : N) (o : op) : option sres :=
            | Erased, SWrong k | Erased, SBoxWrong k =>
                (* the type is checked before the index *)
                sp_offer_wrong c st nx v k
+           | _, SLazy _ src sidx => sp_offer_lazy c st nx v (Some idx) src sidx
            | _, _ => None
            end
   | OWrite _ v idx => sp_write c st nx v idx
